@@ -83,6 +83,7 @@ func main() {
 			status = st
 		}
 	}
+	cleanupScratch()
 	os.Exit(status)
 }
 
@@ -95,6 +96,8 @@ func flagPassed(name string) bool {
 	})
 	return found
 }
+
+var flattened string
 
 func runOne(id string, pc *propCheck, wp **World, root, verif, tier string, seed int, onlyRule string) (status int) {
 	defer func() {
@@ -113,11 +116,25 @@ func runOne(id string, pc *propCheck, wp **World, root, verif, tier string, seed
 	}
 	if *wp == nil {
 		*wp = Load(abs)
+		// wrapper types around a shared struct's table and its lock are flattened away in a
+		// scratch copy (flatten.go); the rules then see private helper methods of the owner
+		if dir, names, why := flattenWrappers(*wp); dir != "" {
+			flattened = fmt.Sprintf("analysed after flattening the wrapper type(s) %v into their owners (scratch copy; the rewriting is syntactic and the copy is type-checked again)", names)
+			fmt.Println("NOTE " + flattened)
+			theWorld = nil
+			*wp = Load(dir)
+		} else if why != "" {
+			fmt.Printf("NOTE wrapper type(s) %v present but not flattened: %s\n", names, why)
+		}
 	}
 	w := *wp
 	resetCaches()
 	r := NewReport(id, tier, w)
 	theWorld = w
+	if flattened != "" {
+		r.Rule("FLATTEN", 1, "wrapper types around shared tables are rewritten into their owners before the rules run")
+		r.OK("FLATTEN", "wrappers", 0, false, "%s", flattened)
+	}
 	pc.run(w, r)
 	if tier == "thorough" {
 		thoroughExtras(id, pc, w, r, abs)
